@@ -247,8 +247,9 @@ def collect_pre_existing():
 _orig_call = runner.call
 
 
-def evaluate_watched(si, doc, check_every=1):
-    """evaluate pool statement si in its own child of the shared context; -> (outcome, list of anomalies)"""
+def evaluate_watched(si, doc, check_every=1, via_eval=False):
+    """evaluate pool statement si in its own child of the shared context (or through the module-level yaql.eval);
+    -> (outcome, list of anomalies, number of dispatch points)"""
     anomalies = []
     count = [0]
 
@@ -267,7 +268,10 @@ def evaluate_watched(si, doc, check_every=1):
     _trapping[0] = True
     try:
         try:
-            out = ('ok', STMTS[si].evaluate(data=doc, context=SHARED.create_child_context()))
+            if via_eval:
+                out = ('ok', yaql.eval(POOL_SRC[si], data=doc))
+            else:
+                out = ('ok', STMTS[si].evaluate(data=doc, context=SHARED.create_child_context()))
         except Exception as e:
             out = ('err', type(e).__name__)
     finally:
@@ -296,6 +300,23 @@ def guarantee(s: int, a: int) -> bool:
     si = SBOX[s][0]
     out, anomalies, n = evaluate_watched(si, make_doc(a, 2, 'ab'))
     H.note('dispatch_points', n)
+    return H.done(not anomalies)
+
+
+def guarantee_eval(s: int, ai: int) -> bool:
+    """
+    pre: H.P('slo', 0) <= s < min(NP, H.P('shi', NP)) and 0 <= ai < 1
+    post: _
+    """
+    # module-level yaql.eval: once an expression text is cached, evaluating it again (other document) must leave the module
+    # caches, the cached engine/statements and the default context exactly as they were, at every dispatch point
+    si, a = SBOX[s][0], SBOX[ai][0]
+    with H.NoTracing():
+        try:
+            yaql.eval(POOL_SRC[si], data=make_doc(7, 7, 'zz'))          # warm the caches (legitimate growth)
+        except Exception:
+            pass
+        out, anomalies, n = evaluate_watched(si, make_doc(a, 2, 'ab'), via_eval=True)
     return H.done(not anomalies)
 
 
@@ -343,6 +364,11 @@ def conditions(tier, seed):
                     'bounds': 'statements %s; document {a: symbolic int, b: [2, a, 3], s: ab, l: [{x: a, y: ab}, {x: 1, y: q}]}; '
                               ' fingerprint of statements+engine+shared context+yaql modules at every runner.call' % (
                                   POOL_SRC[lo:lo + step],)})
+    for lo in range(0, NP, 10):
+      out.append({'name': 'guarantee_eval[stmts=%d-%d]' % (lo, min(NP, lo + 10) - 1), 'func': 'guarantee_eval', 'timeout': 2 * t,
+                'param': {'slo': lo, 'shi': lo + 10},
+                'bounds': 'yaql.eval of 10 pool statements after the text was cached once: fingerprint of the '
+                          'yaql module caches/engine/default context at every runner.call (selectors; concrete documents)'})
     out.append({'name': 'eval_cache_shared', 'func': 'eval_cache_shared', 'timeout': t,
                 'bounds': 'yaql.eval vs direct evaluation for every pool statement x 3 documents (selectors; each path one '
                           'concrete history of the module-level caches); default context stays empty'})
@@ -393,14 +419,16 @@ class RoundRobin:
         return res
 
 
-def solo(si, doc):
+def solo(si, doc, via_eval=False):
     try:
+        if via_eval:
+            return ('ok', yaql.eval(POOL_SRC[si], data=doc))
         return ('ok', STMTS[si].evaluate(data=doc, context=SHARED.create_child_context()))
     except Exception as e:
         return ('err', type(e).__name__)
 
 
-def threaded_differs(si, doc):
+def threaded_differs(si, doc, via_eval=False):
     """-> description of a schedule under which some thread's result differs from its solo result, or None"""
     import itertools
     import random
@@ -411,7 +439,7 @@ def threaded_differs(si, doc):
         for pat in patterns:
             n = max(pat) + 1
             work = [(si, doc)] + [others[(oj + k) % len(others)] for k in range(n - 1)]
-            expect = [solo(i, d) for i, d in work]
+            expect = [solo(i, d, via_eval) for i, d in work]
             sched = RoundRobin(n, pat)
 
             def wrapped(*a, **k):
@@ -419,7 +447,7 @@ def threaded_differs(si, doc):
                 return _orig_call(*a, **k)
             runner.call = wrapped
             try:
-                got = sched.run([(lambda i=i, d=d: solo(i, d)) for i, d in work])
+                got = sched.run([(lambda i=i, d=d: solo(i, d, via_eval)) for i, d in work])
             finally:
                 runner.call = _orig_call
             if got != expect:
@@ -434,8 +462,21 @@ def replay(cond, args):
         ok = eval_cache_shared(**args)
         return {'reproduced': not ok, 'key': 'C18/eval-cache', 'what': 'yaql.eval(%r) differs from direct evaluation or leaves data in the default context' % POOL_SRC[args['s']]}
     si = args['s']
-    doc = make_doc(args['a'], 2, 'ab')
     install_traps()
+    if f == 'guarantee_eval':
+        doc = make_doc(args['ai'], 2, 'ab')
+        try:
+            yaql.eval(POOL_SRC[si], data=make_doc(7, 7, 'zz'))
+        except Exception:
+            pass
+        out, anomalies, n = evaluate_watched(si, doc, via_eval=True)
+        if not anomalies:
+            return {'reproduced': False, 'note': 'no shared write on CPython'}
+        diff = threaded_differs(si, doc, via_eval=True)
+        return {'reproduced': True, 'key': 'C18/eval-cache-state/%s' % sorted(set(anomalies))[0][:50],
+                'what': 'yaql.eval(%r) on an already cached text changes the module-level shared state (%s)%s' % (
+                    POOL_SRC[si], sorted(set(anomalies))[:3], '; ' + diff if diff else '')}
+    doc = make_doc(args['a'], 2, 'ab')
     out, anomalies, n = evaluate_watched(si, doc)
     if not anomalies:
         return {'reproduced': False, 'note': 'no shared write on CPython'}
